@@ -16,6 +16,7 @@ RULE = (
     "expand_all(c), expand(c)==standardize_uri(u) (==u if u was written with a canonical URI prefix), expand(c) is_uri; "
     "prefix-free arm additionally compress(expand(c))==standardize_curie(c), expand(compress(u))==standardize_uri(u) and "
     "mutual inverse on standard forms. The model is used only to decide which precondition applies. "
+    "Every case is checked on the same converter reached through seven histories (built at once; grown string by string with all queries issued after every mutation; split into whole records and merged; grown by case-insensitive merges; every record re-merged into itself case-insensitively; after calls that must be rejected; as by-standing input of every derivation whose results were then mutated). "
     "Non-trivial = u written through a URI-prefix synonym, or the converter has nested URI prefixes, or the identifier "
     "starts with another registered URI prefix's tail, or (prefix-free arm) the CURIE uses a synonym prefix; distinct by "
     "hash of (records, delimiter, string)."
